@@ -22,6 +22,7 @@ R(i) == E.results[i]
 EveryCallReturns == Judged => /\ E.all_returned /\ Len(E.results) = E.calls
 CallsReturnAsSpecified == Judged => \A i \in 1..Len(E.results) :
     \/ R(i).tmo > 0 /\ R(i).kind \in {"timeout", "closed", "writefail"} /\ R(i).ms <= R(i).tmo + 1000 + 600
+    \/ R(i).tmo = 0 /\ R(i).kind \in {"timeout", "closed", "writefail"} /\ R(i).ms <= 3000 + 1000 + 600       \* the default time-out
     \/ R(i).tmo < 0 /\ R(i).kind = "busy" /\ R(i).ms <= 500                                    \* the one that did not fit
     \/ R(i).tmo < 0 /\ R(i).kind \in {"closed", "writefail"} /\ R(i).late >= 0 /\ R(i).late <= 1500   \* answered by the teardown
 AtMostOneBusy == Judged => Cardinality({i \in 1..Len(E.results) : R(i).kind = "busy"}) <= 4
